@@ -169,6 +169,10 @@ def unit_glue(ctx, dtype, ndim, backend):
                 g = z3.And(cnt == 0, to_term(n_out) == 0, o_arr.term == arr_v)
             ctx.oblige(f"{nm}/post({side}: empty => count 0 and unchanged; else its own backend call, count = N, labels kept without wrap)#p{pi}", p.pc, g, func=fn,
                        replay="c05.e2e", info={"dtype": dtype, "ndim": ndim, "backend": backend})
+            if cs and o_arr.dtype_name in UINT_BITS and UINT_BITS[o_arr.dtype_name] < 32:  # the backend output is uint32
+                # machine-integer lemma (quantifier-free part of the path condition suffices): the result dtype holds every label 1..N of this side
+                ctx.oblige(f"{nm}/lemma({side}: the chosen result dtype {o_arr.dtype_name} holds the {side} label of every voxel)#p{pi}", p.pc,
+                           cs[0]["out"].term <= 2 ** UINT_BITS[o_arr.dtype_name] - 1, func=fn, kind="lemma", replay="c05.many", info={"dtype": dtype, "ndim": ndim, "backend": backend})
 
 
 def unit_cc_dispatch(ctx):
